@@ -9,7 +9,10 @@ pub mod trace {
 //@include air/dynamic.rs
 //@include air/public_memory.rs
 //@include air/diluted.rs
+//@include air/periodic.rs
 pub mod layout {
 //@include air/layout_mod.rs
+//@iffeature recursive
+//@include air/layouts/recursive.rs
 } // mod layout
 } // mod swiftness_air
